@@ -26,6 +26,9 @@ func withPrio(in FedInput, p ...string) FedInput { in.Spec.Priorities = p; retur
 
 // FedCorpus: minimised past failures (DESIGN §8); they always run first.
 var FedCorpus = []corpusCase{
+	{"both-conditions-on-a-gateway-field", fixedIn(`{ node(id: "u1") @include(if: true) @skip(if: true) { id } me { firstName } }`), "@skip and @include together on a field the gateway answers itself: included only if both let it in"},
+	{"both-conditions-on-a-gateway-field-2", fixedIn(`{ a: node(id: "u2") @skip(if: false) @include(if: false) { id ... on User { lastName } } me { firstName } }`), ""},
+	{"both-conditions-on-a-service-field", fixedIn(`{ me @skip(if: false) @include(if: true) { firstName lastName @include(if: true) @skip(if: true) nick } }`), ""},
 	{"D01-null-list-entry", fixedIn(`{ allPhotos { url likes } }`), "list containing null with a dependent step"},
 	{"D04-untyped-inline", fixedIn(`{ allUsers { ... { firstName } } }`), ""},
 	{"D05-fragment-directive-var", withVars(fixedIn(`query($s: Boolean!) { me { firstName ... on User @include(if: $s) { lastName } } }`), "", map[string]interface{}{"s": true}), ""},
